@@ -164,6 +164,9 @@ std::optional<Payload> decode_payload_v1(MessageType type,
             if (remaining < needed) {
                 return std::nullopt;
             }
+            if (*(data) > 1) {
+                return std::nullopt;  // the flag is a canonical boolean: exactly what encode() writes
+            }
             AcknowledgePayload payload{};
             payload.accepted = *(data) != 0;
             payload.chunk_id = parse_chunk_id(data + 1);
@@ -185,6 +188,9 @@ std::optional<Payload> decode_payload_v1(MessageType type,
             const auto needed = 1 + 1 + 4;
             if (remaining < needed) {
                 return std::nullopt;
+            }
+            if (*(data) > 1) {
+                return std::nullopt;  // the flag is a canonical boolean: exactly what encode() writes
             }
             HandshakeAckPayload payload{};
             payload.accepted = *(data) != 0;
